@@ -15,11 +15,28 @@ CONFIGS = [(h, a) for h in common.HASHES for a in ALGS]  # 12 root key configura
 DH_PARAMS = rg.enc_ffc_dh_parameters(256, common.RFC5114_P, common.RFC5114_G)
 
 
+def root_key_material(rng: random.Random) -> bytes:
+    """msKds-RootKeyData is opaque bytes: mostly 64 random bytes, sometimes material that LOOKS like an encoding of
+    something else (base64 / hex text of a 64-byte value, printable ASCII, all zero) - it is still the key, as given."""
+    import base64
+
+    r = rng.random()
+    if r < 0.80:
+        return rng.randbytes(64)
+    if r < 0.87:
+        return base64.b64encode(rng.randbytes(64))  # 88 printable bytes
+    if r < 0.92:
+        return rng.randbytes(64).hex().encode()  # 128 hex digits
+    if r < 0.96:
+        return bytes(rng.choice(b"ABCDEFGHIJKLMNOPQRSTUVWXYZabcdefghijklmnopqrstuvwxyz0123456789+/") for _ in range(64))
+    return bytes(64)
+
+
 def root_key(rng: random.Random, hash_name: str, alg: str) -> cms.RootKey:
     if alg == "DH":
-        return cms.RootKey(rng.randbytes(64), hash_name, "DH", DH_PARAMS, rng.choice([512, 512, 521, 264, 2048]), 2048)
+        return cms.RootKey(root_key_material(rng), hash_name, "DH", DH_PARAMS, rng.choice([512, 512, 521, 264, 2048]), 2048)
     bits = 256 if alg.endswith("256") else 384
-    return cms.RootKey(rng.randbytes(64), hash_name, alg, b"", bits, bits)
+    return cms.RootKey(root_key_material(rng), hash_name, alg, b"", bits, bits)
 
 
 def load_into_cache(cache, rkid: uuid.UUID, rk: cms.RootKey) -> None:
